@@ -94,6 +94,9 @@ Proof. intros H. unfold decode_all. apply decode_all_fuel_encs; [exact H|lia]. Q
 (* 2. The shipped tables                                                                             *)
 (* ------------------------------------------------------------------------------------------------ *)
 
+Lemma with_table_elim (f : ucd_table -> bool) t : decompress_table = Some t -> with_table f = true -> f t = true.
+Proof. intros Ht H. rewrite <- (with_table_spec f t Ht). exact H. Qed.
+
 Definition table_ok (t : ucd_table) : Prop :=
   forall cp, exists r, query t cp = Some r /\ has (rec_props r) ptype_Line_Ending = is_line_ending cp.
 
@@ -118,7 +121,7 @@ Proof.
     exists r. split; [exact Hq|]. unfold chk_constants in Hc.
     repeat (apply andb_true_iff in Hc; destruct Hc as [Hc ?]).
     match goal with H : Bool.eqb (p r ptype_Line_Ending) _ = true |- _ => apply Bool.eqb_prop in H; exact H end.
-  - pose proof invalid_le_ok as Hi. rewrite (with_table_spec _ t Ht) in Hi. clear Ht. unfold chk_invalid_le in Hi.
+  - pose proof (with_table_elim _ t Ht invalid_le_ok) as Hi. clear Ht. unfold chk_invalid_le in Hi.
     pose proof (query_out_of_range t cp Hge) as Hq.
     destruct (record_at t invalid_record_index) as [x|] eqn:Ex; [|discriminate Hi].
     exists x. split; [exact Hq|].
@@ -387,7 +390,7 @@ Proof.
   - inversion H; subst. repeat split. constructor.
   - cbn [lower_bound] in H. destruct (fst e <? i) eqn:E.
     + destruct (lower_bound c i) as [b' a'] eqn:El. inversion H; subst.
-      destruct (IH i b' a eq_refl) as (H1 & H2 & H3). repeat split.
+      destruct (IH i b' a El) as (H1 & H2 & H3). repeat split.
       * cbn [app]. f_equal. exact H1.
       * constructor; [apply N.ltb_lt; exact E|exact H2].
       * exact H3.
@@ -557,13 +560,198 @@ Qed.
 
 Lemma Inv_init t tw ta : Inv t tw ta [] [] true (init_state tw ta).
 Proof.
-  repeat split; cbn [init_state ps_match ps_tabw ps_taba ps_reset ps_origin ps_cache]; try reflexivity.
-  - apply spec_runes_nil.
-  - constructor.
+  repeat split; cbn [init_state ps_match ps_tabw ps_taba ps_reset ps_origin ps_cache];
+    try apply spec_runes_nil; try reflexivity.
+  constructor.
 Qed.
 
 Lemma C11_history_independent_partial_proof : stmt_C11_history_independent_partial.
 Proof.
   intros t Ht tw ta h _ Hv Hn. pose proof (table_ok_shipped t Ht) as Hok. clear Ht.
   exact (run_ok t tw ta Hok h [] [] true (init_state tw ta) (Inv_init t tw ta) (Forall_nil _) (Forall_nil _) Hv Hn).
+Qed.
+
+(* ------------------------------------------------------------------------------------------------ *)
+(* 5. The cache                                                                                      *)
+(* ------------------------------------------------------------------------------------------------ *)
+
+Lemma ssorted_app a b :
+  ssorted (a ++ b) <-> ssorted a /\ ssorted b /\ Forall (fun x => Forall (fun y => x < y) b) a.
+Proof.
+  induction a as [|x a IH]; cbn [app ssorted].
+  - split; [intros H; repeat split; [exact H|constructor]|intros (_ & H & _); exact H].
+  - rewrite Forall_app, IH. split.
+    + intros ((H1 & H2) & H3 & H4 & H5). repeat split; try assumption. constructor; assumption.
+    + intros ((H1 & H3) & H4 & H5). inversion H5; subst. repeat split; assumption.
+Qed.
+
+Lemma position_at_sorted t s i p s' : cache_sorted s -> position_at t s i = Some (p, s') -> cache_sorted s'.
+Proof.
+  intros Hs H. destruct (position_at_cases t s i p s' H) as (b & a & El & [[_ ->]|(Ecl & _ & ->)]); [exact Hs|].
+  destruct (lb_spec _ _ _ _ El) as (Hcat & Hb & Ha).
+  unfold cache_sorted in *. cbn [ps_cache with_cache]. rewrite Hcat in Hs. rewrite map_app in *. cbn [map fst].
+  apply ssorted_app in Hs. destruct Hs as (Sb & Sa & Hba). apply ssorted_app. split; [exact Sb|].
+  assert (Hia : Forall (fun y => i < y) (map fst a)).
+  { destruct a as [|[i0 q] a']; [constructor|]. cbn [map fst ssorted] in *. destruct Sa as [Sa1 _].
+    unfold cache_lookup in Ecl. destruct (i0 =? i) eqn:Ei; [discriminate Ecl|]. apply N.eqb_neq in Ei.
+    assert (Hlt : i < i0) by lia. constructor; [exact Hlt|].
+    eapply Forall_impl; [|exact Sa1]. cbv beta. intros y Hy. lia. }
+  split; [cbn [ssorted]; split; assumption|].
+  apply Forall_forall. intros x Hx. constructor.
+  - apply in_map_iff in Hx. destruct Hx as [e [<- He]]. rewrite Forall_forall in Hb. apply Hb. exact He.
+  - rewrite Forall_forall in Hba. apply Hba. exact Hx.
+Qed.
+
+Lemma drain_sorted t s s' : drain t s = Some s' -> cache_sorted s'.
+Proof.
+  unfold drain. destruct (position_at t s (N.of_nat (length (ps_match s)))) as [[p s1]|]; [|discriminate].
+  intros H. inversion H; subst. exact I.
+Qed.
+
+Lemma step_sorted t s o s' a : cache_sorted s -> step t s o = Some (s', a) -> cache_sorted s'.
+Proof.
+  intros Hs H. destruct o as [bs|i| | |b]; cbn [step] in H.
+  - inversion H; subst. exact I.
+  - destruct (position_at t s i) as [[p s1]|] eqn:E; [|discriminate H]. inversion H; subst.
+    exact (position_at_sorted t s i p s' Hs E).
+  - destruct (drain t s) as [s1|] eqn:E; [|discriminate H]. inversion H; subst. exact (drain_sorted t s s' E).
+  - unfold reset in H. destruct (ps_reset s).
+    + destruct (drain t s) as [s1|] eqn:E; [|discriminate H]. inversion H; subst. exact (drain_sorted t s s' E).
+    + inversion H; subst. exact Hs.
+  - inversion H; subst. exact Hs.
+Qed.
+
+Lemma C11_cache_sorted_proof : stmt_C11_cache_sorted.
+Proof.
+  intros t s ops. revert s. induction ops as [|o ops IH]; intros s s' ans Hs H; cbn [run] in H.
+  - inversion H; subst. exact Hs.
+  - destruct (step t s o) as [[s1 a1]|] eqn:E; [|discriminate H].
+    destruct (run t s1 ops) as [[s2 a2]|] eqn:E2; [|discriminate H]. inversion H; subst.
+    exact (IH s1 s' a2 (step_sorted t s o s1 a1 Hs E) E2).
+Qed.
+
+Lemma C11_cache_hit_proof : stmt_C11_cache_hit.
+Proof.
+  intros t s i p s' H. destruct (position_at_cases t s i p s' H) as (b & a & El & [[_ ->]|(_ & _ & ->)]); [exact H|].
+  destruct (lb_spec _ _ _ _ El) as (_ & Hb & _).
+  unfold position_at. cbn [ps_cache with_cache]. rewrite (lb_insert b i p a Hb). cbn [cache_lookup].
+  rewrite N.eqb_refl. reflexivity.
+Qed.
+
+(* ------------------------------------------------------------------------------------------------ *)
+(* 6. The defects, by evaluation on the shipped tables                                               *)
+(* ------------------------------------------------------------------------------------------------ *)
+
+Definition pos_eqb (p q : pos) : bool := (p_line p =? p_line q) && (p_col p =? p_col q).
+Lemma pos_eqb_eq p q : pos_eqb p q = true -> p = q.
+Proof.
+  unfold pos_eqb. intros H. apply andb_true_iff in H. destruct H as [H1 H2]. apply N.eqb_eq in H1, H2.
+  destruct p, q. cbn in *. subst. reflexivity.
+Qed.
+
+Fixpoint poss_eqb (a b : list pos) : bool :=
+  match a, b with
+  | [], [] => true
+  | p :: a', q :: b' => pos_eqb p q && poss_eqb a' b'
+  | _, _ => false
+  end.
+Lemma poss_eqb_eq : forall a b, poss_eqb a b = true -> a = b.
+Proof.
+  induction a as [|p a IH]; intros [|q b] H; try discriminate H; [reflexivity|].
+  cbn [poss_eqb] in H. apply andb_true_iff in H. destruct H as [H1 H2].
+  rewrite (pos_eqb_eq _ _ H1), (IH b H2). reflexivity.
+Qed.
+
+Definition answers_are (r : option (pstate * list pos)) (l : list pos) : bool :=
+  match r with Some (_, a) => poss_eqb a l | None => false end.
+Lemma answers_are_spec r l : answers_are r l = true -> exists s, r = Some (s, l).
+Proof.
+  unfold answers_are. destruct r as [[s a]|]; [|discriminate]. intros H. exists s.
+  rewrite (poss_eqb_eq _ _ H). reflexivity.
+Qed.
+
+Definition opt_is (o : option pos) (q : pos) : bool := match o with Some p => pos_eqb p q | None => false end.
+Lemma opt_is_spec o q : opt_is o q = true -> o = Some q.
+Proof. unfold opt_is. destruct o as [p|]; [|discriminate]. intros H. rewrite (pos_eqb_eq _ _ H). reflexivity. Qed.
+
+(* the text "a CR LF b" *)
+Definition w_rs : list N := [97; 13; 10; 98].
+Lemma w_rs_scalars : scalars w_rs.
+Proof. repeat constructor. Qed.
+
+(* a single query of offset 4 (after the b) on a fresh environment answers (2,3); the property demands (2,2):
+   the LF of the CR LF pair is counted as a column of line 2 *)
+Definition w_single_run (t : ucd_table) : bool :=
+  answers_are (run t (init_state 8 8) [OText (encs w_rs); OQuery (boff w_rs 4)]) [mkpos 2 3].
+Definition w_single_spec (t : ucd_table) : bool :=
+  opt_is (spec_pos t 8 8 (mkpos 1 1) (encs w_rs) (boff w_rs 4)) (mkpos 2 2).
+Lemma w_single_run_ok : with_table w_single_run = true. Proof. vm_compute. reflexivity. Qed.
+Lemma w_single_spec_ok : with_table w_single_spec = true. Proof. vm_compute. reflexivity. Qed.
+
+Lemma le_1_8 : 1 <= 8. Proof. intros H. discriminate H. Qed.
+
+Lemma C11_crlf_column_refuted_proof : stmt_C11_crlf_column_refuted.
+Proof.
+  intros H. destruct C14_tables_decode_proof as [t Ht].
+  pose proof (with_table_elim _ t Ht w_single_run_ok) as W1.
+  pose proof (with_table_elim _ t Ht w_single_spec_ok) as W2.
+  assert (Hlen : (4 <= length w_rs)%nat) by (cbn; lia).
+  destruct (H t Ht 8 8 w_rs 4%nat le_1_8 w_rs_scalars Hlen) as (s & ans & Hr & He). clear Ht H.
+  destruct (answers_are_spec _ _ W1) as [s0 Hr0]. apply opt_is_spec in W2.
+  rewrite Hr0 in Hr. rewrite W2 in He. clear Hr0 W1 W2.
+  inversion Hr; subst ans. cbn [map] in He. inversion He.
+Qed.
+
+(* the same query after a query of offset 2 (between CR and LF) answers (3,2) *)
+Definition w_hist_run1 (t : ucd_table) : bool :=
+  answers_are (run t (init_state 8 8) (OText (encs w_rs) :: queries w_rs [] ++ [OQuery (boff w_rs 4)])) [mkpos 2 3].
+Definition w_hist_run2 (t : ucd_table) : bool :=
+  answers_are (run t (init_state 8 8) (OText (encs w_rs) :: queries w_rs [2%nat] ++ [OQuery (boff w_rs 4)]))
+              [mkpos 2 1; mkpos 3 2].
+Lemma w_hist_run1_ok : with_table w_hist_run1 = true. Proof. vm_compute. reflexivity. Qed.
+Lemma w_hist_run2_ok : with_table w_hist_run2 = true. Proof. vm_compute. reflexivity. Qed.
+
+Lemma C11_crlf_history_refuted_proof : stmt_C11_crlf_history_refuted.
+Proof.
+  intros H. destruct C14_tables_decode_proof as [t Ht].
+  pose proof (with_table_elim _ t Ht w_hist_run1_ok) as W1.
+  pose proof (with_table_elim _ t Ht w_hist_run2_ok) as W2.
+  destruct (answers_are_spec _ _ W1) as [s1 R1]. destruct (answers_are_spec _ _ W2) as [s2 R2].
+  assert (Hlen : (4 <= length w_rs)%nat) by (cbn; lia).
+  assert (Hjs2 : Forall (fun k => (k <= length w_rs)%nat) [2%nat]) by (repeat constructor; cbn; lia).
+  pose proof (H t Ht 8 8 w_rs [] [2%nat] 4%nat le_1_8 w_rs_scalars (Forall_nil _) Hjs2 Hlen s1 _ s2 _ R1 R2) as E.
+  clear - E. cbn [last] in E. inversion E.
+Qed.
+
+(* hence the full property fails *)
+Definition w_h : list hop := [HText w_rs; HQuery 4].
+Definition w_full_run (t : ucd_table) : bool :=
+  answers_are (run t (init_state 8 8) (lower [] true w_h)) [mkpos 2 3].
+Fixpoint opts_are (a : list (option pos)) (b : list pos) : bool :=
+  match a, b with
+  | [], [] => true
+  | o :: a', q :: b' => opt_is o q && opts_are a' b'
+  | _, _ => false
+  end.
+Lemma opts_are_spec : forall a b, opts_are a b = true -> a = map Some b.
+Proof.
+  induction a as [|o a IH]; intros [|q b] H; try discriminate H; [reflexivity|].
+  cbn [opts_are] in H. apply andb_true_iff in H. destruct H as [H1 H2].
+  cbn [map]. rewrite (opt_is_spec _ _ H1), (IH b H2). reflexivity.
+Qed.
+Definition w_full_spec (t : ucd_table) : bool := opts_are (expected t 8 8 [] [] true w_h) [mkpos 2 2].
+Lemma w_full_run_ok : with_table w_full_run = true. Proof. vm_compute. reflexivity. Qed.
+Lemma w_full_spec_ok : with_table w_full_spec = true. Proof. vm_compute. reflexivity. Qed.
+
+Lemma C11_full_refuted_proof : stmt_C11_full_refuted.
+Proof.
+  intros H. destruct C14_tables_decode_proof as [t Ht].
+  pose proof (with_table_elim _ t Ht w_full_run_ok) as W1.
+  pose proof (with_table_elim _ t Ht w_full_spec_ok) as W2.
+  assert (Hv : hvalid [] true w_h).
+  { cbn [hvalid w_h]. split; [exact w_rs_scalars|]. split; [cbn; lia|exact I]. }
+  destruct (H t Ht 8 8 w_h le_1_8 Hv) as (s & ans & Hr & He). clear Ht H.
+  destruct (answers_are_spec _ _ W1) as [s0 Hr0]. apply opts_are_spec in W2.
+  rewrite Hr0 in Hr. rewrite W2 in He. clear Hr0 W1 W2.
+  inversion Hr; subst ans. cbn [map] in He. inversion He.
 Qed.
